@@ -192,6 +192,30 @@ pub fn run_model(drv: &mut Driver, nodes: &[X], lim: Limits) -> Result<Run, Stri
 }
 
 /// do implementation and model agree? (status kind, end-of-run probe, element events)
+/// documents on which model and implementation agreed only up to the rounding of off-grid numbers
+pub static OFF_GRID_TOLERATED: std::sync::atomic::AtomicU64 = std::sync::atomic::AtomicU64::new(0);
+
+/// same events, field for field, except numeric attribute values that differ by at most 0.0025 - and
+/// only if the model itself printed a number with three decimals (so a rounding has taken place)
+fn events_close(a: &[String], b: &[String]) -> bool {
+    if a.len() != b.len() { return false; }
+    let three = |v: &str| v.rsplit_once('.').map(|(_, f)| f.len() >= 3 && f.bytes().all(|c| c.is_ascii_digit())).unwrap_or(false);
+    if !b.iter().any(|e| e.split('\u{1f}').any(three)) { return false; }
+    for (x, y) in a.iter().zip(b.iter()) {
+        if x == y { continue; }
+        let (fx, fy): (Vec<&str>, Vec<&str>) = (x.split('\u{1f}').collect(), y.split('\u{1f}').collect());
+        if fx.len() != fy.len() { return false; }
+        for (p, q) in fx.iter().zip(fy.iter()) {
+            if p == q { continue; }
+            match (p.parse::<f64>(), q.parse::<f64>()) {
+                (Ok(u), Ok(v)) if (u - v).abs() <= 0.0025 => {}
+                _ => return false,
+            }
+        }
+    }
+    true
+}
+
 pub fn agree(i: &Run, m: &Run) -> Result<(), String> {
     let limit_kind = |s: &str| s.contains("LimitE") ;
     if i.status.starts_with("ok") != m.status.starts_with("ok") {
@@ -203,6 +227,13 @@ pub fn agree(i: &Run, m: &Run) -> Result<(), String> {
     if i.depth != m.depth || i.elem_stack != m.elem_stack || i.in_specs != m.in_specs || i.scope_height.max(1) != m.scope_height.max(1) {
         return Err(format!("end-of-run state: impl depth={} scopes={} stack={} specs={} vs model depth={} scopes={} stack={} specs={}",
             i.depth, i.scope_height, i.elem_stack, i.in_specs, m.depth, m.scope_height, m.elem_stack, m.in_specs));
+    }
+    if i.status == "ok" && i.events != m.events && events_close(&i.events, &m.events) {
+        // the model computes on exact rationals, the code in f32 with every written number rounded to
+        // three decimals: once a value with a third decimal has been written (the document has left the
+        // grid on which both are exact) later digits may differ by rounding (DESIGN §3.2)
+        OFF_GRID_TOLERATED.fetch_add(1, std::sync::atomic::Ordering::Relaxed);
+        return Ok(());
     }
     if i.status == "ok" && i.events != m.events {
         let idx = i.events.iter().zip(m.events.iter()).position(|(a, b)| a != b).unwrap_or(i.events.len().min(m.events.len()));
